@@ -1050,8 +1050,9 @@ def case_random_tree(rng, ctx):
                         or any(x.distance is not None and x.distance <= 0 for x in nodes))
     tree_laws(ctx, rng, tree, got, n, npairs=(25 if ctx.tier == "quick" else 60))
     # as_binary / == on bare nodes
-    if ctx.allowed("as_binary_on_node") and rng.random() < 0.5:
-        check_as_binary_node(ctx, rng, m)
+    sub = np.random.default_rng(int(rng.integers(2**32)))      # rng consumption independent of the quarantine state
+    if sub.random() < 0.5 and ctx.allowed("as_binary_on_node"):
+        check_as_binary_node(ctx, sub, m)
     if rng.random() < 0.3:
         other_n = int(rng.integers(1, 6))
         mo = random_model_tree(rng, other_n, branch_drawer(rng, scale, style), 3, 1)
